@@ -64,7 +64,16 @@ EXPLANATION = (
     "on a model expression (a list of tensor names with rename_tensor / atoms, both iteration orders) for seven "
     "configurations (identity, one rename, two defaults swapped, a chain, amplitudes renamed, amplitudes and densities swapped, "
     "a name taken from a later field): every default name incl. t<n>[cc] / p<n> ends up with the name map_default_name "
-    "assigns to it, all at once. R19k: simplify is evaluated on a model expression with two terms that are equal up to a "
+    "assigns to it, all at once; bra-ket symmetry of the new name: Expr.rename_tensor is evaluated on a model expression (terms = "
+    "tuples of (tensor name, bra_ket_sym)) that satisfies the container invariant 'a tensor whose name is listed in sym_tensors / "
+    "antisym_tensors carries that symmetry' for 4 expression shapes x 4 declarations (new name symmetric, antisymmetric, undeclared, "
+    "declared next to others) x 4 (current, new) pairs: afterwards the container holds exactly the renamed tensors and every tensor "
+    "called `new` carries the symmetry declared for `new` (A - A^T cancels after A -> B with B symmetric), other tensors are "
+    "unchanged, self is returned; TensorNames.rename_tensors is evaluated through Expr.rename_tensor on the real expression V Y - "
+    "V^T Y + f Y - f^T Y + D V written with the default names inside a container whose assumptions name the configured tensors "
+    "(sym_tensors = configured fock/eri as set by real=True, antisym_tensors = configured sym_orb_denom) for six configurations "
+    "(eri/fock renamed, eri renamed, swapped, chained, denominator renamed, defaults): every tensor ends up with its configured name "
+    "and the symmetry declared for it (F58). R19k: simplify is evaluated on a model expression with two terms that are equal up to a "
     "renaming of contracted indices, once for each order of Expr.terms (sympy orders the arguments by the name strings of the "
     "generic indices, which wrap around with the counters): the result - which term represents the class - must be the same. "
     "R19l (cache age): (A) Term.substitute_contracted is evaluated on a model term with two groups of generic indices in both "
@@ -90,7 +99,10 @@ ASSUMPTIONS = [
     "(norm factors below order 2) carry no generic indices and compares ages, not full texts",
     "R19e explores histories of depth <= 3 with spin-free occupied requests; R19i models inspect.signature/bind/apply_defaults, "
     "functools.wraps and property by reference implementations; R19j models the expression as a list of tensor names "
-    "(rename_tensor renames every tensor of that name, atoms lists the names present) for seven configurations",
+    "(rename_tensor renames every tensor of that name, atoms lists the names present) for seven configurations; the bra-ket clause of "
+    "R19j evaluates the Expr level only: Term.rename_tensor / Term._apply_tensor_braket_sym (and Obj below) are the reference model "
+    "'rename and keep the bra_ket_sym attribute' / 'set the symmetry the owning container declares for the name'; a tensor that "
+    "carries one symmetry and is renamed to a name declared with the opposite one is outside the scenarios",
     "tensor-name typing: `.name` reads, names bound from them and derived tensor-name parameters; literals built by "
     "str.join/replace or read from files are not tracked",
 ]
@@ -2736,6 +2748,187 @@ def r19j(ctx):
                       key=f"simultaneous {what} {order}")
 
 
+# ---------------------------------------------------------------------- R19j (bra-ket symmetry of the new name)
+# Container invariant: every tensor whose name is listed in the container's sym_tensors / antisym_tensors carries that bra-ket
+# symmetry (Expr.__init__, set_sym_tensors, set_antisym_tensors and make_real establish it).  Expr.rename_tensor is evaluated
+# on a model expression (terms = tuples of (name, bra_ket_sym) tensors; the Term level is the reference model "rename every
+# tensor called current and keep its bra_ket_sym attribute" / "give every tensor the symmetry the container declares for
+# its name") and has to preserve the invariant: the tensors that receive a declared name receive the declared symmetry.
+
+def _braket_expected(tensors, sym, antisym):
+    return tuple((n, 1 if n in sym else -1 if n in antisym else s) for n, s in tensors)
+
+
+class _SumModel:
+    """model of Expr + its sympy content: a tuple of terms, each a tuple of (tensor name, bra_ket_sym in {0, 1, -1})"""
+
+    def __init__(self, terms, sym=(), antisym=(), real=False):
+        self.problems = []
+        model = self
+        self.expr = Obj("expr_container:Expr", "expr")
+        self.expr.attrs.update(_classes={"Expr", "Container"}, _sym_tensors=set(sym), _antisym_tensors=set(antisym), _real=real,
+                               _target_idx=None, _expr=self.value(terms))
+        self.hooks = {"Expr.terms": lambda sx, a, kw: model.terms(), "Add": lambda sx, a, kw: model.add(a),
+                      "Expr.__len__": lambda sx, a, kw: len(model.content())}
+
+    # -- values (the sympy side)
+    def value(self, terms):
+        terms = tuple(tuple(t) for t in terms)
+        v = Obj(None, "sum[" + " + ".join("*".join(f"{n}{'+' if s == 1 else '-' if s == -1 else ''}" for n, s in t) for t in terms) + "]")
+
+        def atoms(sx, a, kw):
+            out = []
+            for n in sorted({n for t in terms for n, _ in t}):
+                sy = Obj(None, f"Symbol({n})")
+                sy.attrs["name"] = n
+                out.append(sy)
+            return out
+        v.attrs.update({"$sum": terms, "is_number": False, "atoms": atoms, "$binop": self.binop})
+        return v
+
+    def add(self, parts):
+        terms = []
+        for x in parts:
+            if isinstance(x, Obj) and "$sum" in x.attrs:
+                terms.extend(x.attrs["$sum"])
+            elif x != 0 or isinstance(x, bool):
+                raise AnalysisError(f"R19j: the model sum receives the summand {x!r}")
+        return self.value(terms)
+
+    def binop(self, sx, op, a, b, node):
+        if isinstance(op, ast.Add):
+            return self.add([a, b])
+        return NotImplemented
+
+    # -- the container side
+    def content(self):
+        v = self.expr.attrs.get("_expr")
+        if not (isinstance(v, Obj) and "$sum" in v.attrs):
+            raise AnalysisError(f"R19j: the content of the model expression became {v!r}")
+        return v.attrs["$sum"]
+
+    def terms(self):
+        out = []
+        for k, tensors in enumerate(self.content()):
+            term = Obj("expr_container:Term", f"term{k}")
+
+            def rename_tensor(sx, a, kw, tensors=tensors):
+                a = [x for x in a if not isinstance(x, Obj)]
+                b = dict(zip(("current", "new", "return_sympy"), a))
+                b.update(kw)
+                cur, new = b.get("current"), b.get("new")
+                if not isinstance(cur, str) or not isinstance(new, str) or b.get("return_sympy") is not True:
+                    raise AnalysisError(f"R19j: Term.rename_tensor called with {b}")
+                # Obj.rename_tensor rebuilds the tensor with the bra_ket_sym attribute it had under the old name
+                return self.value([tuple((new if n == cur else n, s) for n, s in tensors)])
+
+            def apply_sym(sx, a, kw, tensors=tensors):
+                # Term.sym_tensors / antisym_tensors read the assumptions of the owning container at the time of the call
+                at = self.expr.attrs
+                return self.value([_braket_expected(tensors, at["_sym_tensors"], at["_antisym_tensors"])])
+            term.attrs.update(rename_tensor=rename_tensor, _apply_tensor_braket_sym=apply_sym)
+            out.append(term)
+        return tuple(out)
+
+
+def _r19j_braket(ctx):
+    rule = "R19j"
+    fn = ctx.model.fn("expr_container:Expr.rename_tensor")
+    inline_expr = lambda q: q.startswith("expr_container:Expr.")  # noqa: E731
+
+    def consistent(terms, sym, antisym):
+        return [tuple(_braket_expected(t, sym, antisym)) for t in terms]
+
+    # (1) Expr.rename_tensor(current, new): shapes x declarations
+    shapes = {
+        "A - A^T": [[("A", 0)], [("A", 0)]],
+        "A*Y + B*Y + C": [[("A", 0), ("Y", 0)], [("B", 0), ("Y", 0)], [("C", 0)]],
+        "A*A + B": [[("A", 0), ("A", 0)], [("B", 0)]],
+        "A(sym)*B": [[("A", 1), ("B", 0)]],
+    }
+    decls = {"new symmetric": (lambda new: ({new}, set())), "new antisymmetric": (lambda new: (set(), {new})),
+             "new undeclared": (lambda new: ({"Z"}, {"X"})), "new and others declared": (lambda new: ({new, "Y"}, {"C"}))}
+    n_eval = 0
+    for sname, terms in shapes.items():
+        for dname, decl in decls.items():
+            for cur, new in (("A", "B"), ("A", "D"), ("B", "A"), ("Q", "B")):
+                sym_, anti = decl(new)
+                if sname == "A(sym)*B" and (("A" in anti) or (cur == "A" and new in anti)):
+                    continue  # a symmetric tensor is not declared antisymmetric
+                start = consistent(terms, sym_ - ({"A"} if sname == "A(sym)*B" else set()), anti)
+                m = _SumModel(start, sym_, anti)
+                sx = Symex(ctx.model, inline=inline_expr, hooks=m.hooks, what="Expr.rename_tensor", max_paths=64)
+                outs = sx.run(fn, lambda: dict(self=m.expr, current=cur, new=new))
+                key = f"bra-ket {sname} | {dname} | {cur}->{new}"
+                if len(outs) != 1 or outs[0].kind != "return":
+                    ctx.bad(rule, fn, f"rename_tensor({cur!r}, {new!r}) on {sname} does not return on one path: {outs}", key=key)
+                    continue
+                got = [tuple(t) for t in m.content()]
+                renamed = [tuple((new if n == cur else n, s) for n, s in t) for t in start]
+                want = consistent(renamed, sym_, anti)
+                n_eval += 1
+                ctx.check(rule, fn, sorted(got) == sorted(want) and outs[0].value is m.expr,
+                          f"rename_tensor({cur}, {new}) on {sname}, {dname}: renamed tensors carry the declared symmetry",
+                          f"Expr.rename_tensor({cur!r}, {new!r}) on the expression {sname} with sym_tensors={sorted(sym_)}, antisym_tensors="
+                          f"{sorted(anti)}: the container holds {got} (name, bra_ket_sym), expected {want}: a tensor named {new!r} is left "
+                          "without the bra-ket symmetry the container declares for that name (the renamed tensors keep the symmetry "
+                          "attribute of the old name), so A - A^T does not cancel although new is listed as symmetric", key=key)
+    ctx.floor(rule, "Expr.rename_tensor bra-ket scenarios evaluated", n_eval, 40)
+
+    # (2) TensorNames.rename_tensors on non-default configurations: an expression written with the default names inside a
+    # container whose assumptions name the *configured* tensors (real=True puts tensor_names.fock / .eri into sym_tensors,
+    # use_symbolic_denominators puts tensor_names.sym_orb_denom into antisym_tensors)
+    fn2 = ctx.model.fn("tensor_names:TensorNames.rename_tensors")
+    defaults = _defaults(ctx)
+    f, v, d = defaults["fock"], defaults["eri"], defaults["sym_orb_denom"]
+    configs = {
+        "eri and fock renamed": {"eri": "W", "fock": "F"},
+        "eri renamed": {"eri": "W"},
+        "eri and fock swapped": {"eri": f, "fock": v},
+        "chain eri -> fock -> g": {"eri": f, "fock": "g"},
+        "denominator renamed": {"sym_orb_denom": "Q", "eri": "W"},
+        "defaults": {},
+    }
+
+    def fields_hook(sx, a, kw):
+        out = []
+        for nm, dflt in defaults.items():
+            fo = Obj(None, f"field:{nm}")
+            fo.attrs.update(name=nm, default=dflt)
+            out.append(fo)
+        return out
+    for what, conf in configs.items():
+        cfg = dict(defaults)
+        cfg.update(conf)
+        sym_, anti = {cfg["fock"], cfg["eri"]}, {cfg["sym_orb_denom"]}
+        # V Y - V^T Y + f Y - f^T Y + D V
+        written = [[(v, 0), ("Y", 0)], [(v, 0), ("Y", 0)], [(f, 0), ("Y", 0)], [(f, 0), ("Y", 0)], [(d, 0), (v, 0)]]
+        start = consistent(written, sym_, anti)
+        m = _SumModel(start, sym_, anti, real=True)
+        hooks = dict(m.hooks)
+        hooks.update({"fields": fields_hook, "defaults": lambda s_, a_, k_: dict(defaults), "TensorNames.defaults": lambda s_, a_, k_: dict(defaults)})
+        sx = Symex(ctx.model, inline=lambda q: q.startswith("tensor_names:") or inline_expr(q), hooks=hooks, what="rename_tensors", max_paths=64)
+
+        def args():
+            me = Obj("tensor_names:TensorNames", "self")
+            me.attrs.update(cfg)
+            return dict(self=me, expr=m.expr)
+        outs = sx.run(fn2, args)
+        key = f"bra-ket rename_tensors {what}"
+        if len(outs) != 1 or outs[0].kind != "return":
+            ctx.bad(rule, fn2, f"rename_tensors ({what}) does not return on one path: {outs}", key=key)
+            continue
+        to_cfg = {dflt: cfg[nm] for nm, dflt in defaults.items()}
+        want = consistent([tuple((to_cfg.get(n, n), s) for n, s in t) for t in start], sym_, anti)
+        got = [tuple(t) for t in m.content()]
+        ctx.check(rule, fn2, sorted(got) == sorted(want),
+                  f"rename_tensors, {what}: the tensors that receive the configured names carry the symmetry declared for them",
+                  f"configuration `{conf}`, real expression V Y - V^T Y + f Y - f^T Y + D V written with the default names, sym_tensors="
+                  f"{sorted(sym_)}, antisym_tensors={sorted(anti)}: after rename_tensors the container holds {got} (name, bra_ket_sym), "
+                  f"expected {want}: the tensors now called by the configured names lack the bra-ket symmetry the container declares, the "
+                  "expression no longer simplifies to 0 - the configuration changes the result by more than the renaming", key=key)
+
+
 # ====================================================================== R19k
 # Orders that depend on the call history: ``Expr.terms`` follows sympy's argument order, which compares Dummy indices by
 # their name strings ('i4' < 'o3'), while generic names wrap around (.. n3, o3, i4 ..) as the counters advance.  A choice
@@ -3175,6 +3368,7 @@ def run(ctx):
         r19i(ctx)
     if ctx.want("R19j"):
         r19j(ctx)
+        _r19j_braket(ctx)
     if ctx.want("R19k"):
         r19k(ctx)
     if ctx.want("R19l"):
